@@ -344,6 +344,70 @@ def rule_merge_dedup(ctx: Ctx, rule="R-C18-7"):
                f"patterns counts once (last assignment: `{norm(last)[:70] if last is not None else 'none'}`)", node=last or fn, mod=m)
 
 
+def rule_guess_after_year(ctx: Ctx, typed: Typed):
+    """R-C18-8: guess_edition() filters the candidates by the citation's year and, once it has made a guess, never withdraws it.  It is
+    therefore sound only if it runs after the citation's own year has been stored for the last time: on no path may a call that reaches
+    guess_edition be followed by a statement that reaches an own-year store (the copy in is_parallel_citation is the inherited year the
+    property exempts)."""
+    from ..effects import Effects
+
+    repo = ctx.repo
+    eff = Effects(repo, typed)
+    GE = "models.ResourceCitation.guess_edition"
+    if GE not in eff.funcs:
+        ctx.ob("R-C18-8", "guess_edition/located", False, "models.ResourceCitation.guess_edition not found", node=None, mod=repo.mod("models"))
+        return
+    stores = [(q, st) for q, m, fn, st, tgt, v in year_stores(ctx, typed) if not q.endswith(".is_parallel_citation")]
+    store_funcs = {q for q, _ in stores}
+    store_stmts = {id(st) for _, st in stores}
+    reach: Dict[str, set] = {}
+
+    def R(q: str) -> set:
+        if q not in reach:
+            reach[q] = set(eff.reachable([q]))
+        return reach[q]
+
+    scope = [q for q in eff.reachable(["find.get_citations"]) if not q.startswith("test_factories")]
+    n_paths = n_calls = 0
+    for q in scope:
+        fs = eff.funcs[q]
+        by_call = {}
+        for targets, call, *_ in fs.calls:
+            by_call.setdefault(id(call), set()).update(targets)
+        if not any(t for ts in by_call.values() for t in ts if GE in R(t) or t == GE):
+            continue
+        for p in enumerate_paths(fs.node.body):
+            n_paths += 1
+            ge_at = None
+            bad = None
+            for ev in p.events:
+                node = ev[1] if ev[0] in ("stmt", "cond") else None
+                if node is None:
+                    continue
+                calls = sorted([c for c in ast.walk(node) if isinstance(c, ast.Call) and id(c) in by_call], key=lambda c: (c.lineno, c.col_offset))
+                hits_store = ev[0] == "stmt" and id(node) in store_stmts
+                for c in calls:
+                    ts = by_call[id(c)]
+                    n_calls += 1
+                    ys = any((R(t) & store_funcs) for t in ts)
+                    ge = any(t == GE or GE in R(t) for t in ts)
+                    if ys and ge_at is not None and bad is None:
+                        bad = (ge_at, c)
+                    if ge:
+                        ge_at = ge_at or c
+                if hits_store and ge_at is not None and bad is None:
+                    bad = (ge_at, node)
+            if bad is not None:
+                ctx.ob("R-C18-8", f"{q}/year-stored-after-guess", False,
+                       f"`{norm(bad[0])[:50]}` reaches guess_edition() and `{norm(bad[1])[:50]}`, later on the same path, reaches a store of the citation's own "
+                       "year: the guess was made with an earlier (or no) year and is never withdrawn, so it need not be the only candidate publishing in "
+                       "the final year", node=bad[1], mod=fs.mod)
+                break
+    ctx.ob("R-C18-8", "extraction/guess-after-last-year-store", True,
+           f"{n_paths} paths of the functions that reach guess_edition() examined ({n_calls} calls classified, own-year stores in {sorted(store_funcs)})",
+           node=eff.funcs[GE].node, mod=eff.funcs[GE].mod, nontrivial=False)
+
+
 def rule_disambiguation(ctx: Ctx):
     repo = ctx.repo
     hm, fm = repo.mod("helpers"), repo.mod("find")
@@ -400,6 +464,7 @@ def run(ctx: Ctx):
     ctx.guard(rule_disambiguation, ctx)
     ctx.guard(rule_includes_year, ctx)
     ctx.guard(rule_merge_dedup, ctx)
+    ctx.guard(rule_guess_after_year, ctx, typed)
     ctx.floor("R-C18-1", 5)
     ctx.floor("R-C18-2", 5)
     ctx.floor("R-C18-3", 5)
